@@ -13,8 +13,16 @@ class, any SEID / id / sequence value, responses without request, unknown peers)
  * sessions not addressed by a message are intact: C05 `mod_frame`, `del_frame`, `reset_frame`.
 Layer 2 — decoding of the datagram (go-pfcp `message.Parse` and the IE accessors) is NOT proved here: it is covered by
 the malformed-datagram correspondence stream only, and the one fault found there is a recorded known finding.
+Layer 2, gtp5g driver path — structural, over facts regenerated from /repo on every run (Gen/Guards.lean, go/ast): every
+driver entry point that walks the CONTENT of a rule IE (Create* / Update* of PDR, FAR, QER, URR, BAR) starts with
+`defer ieFault(&<named error result>)`, `ieFault` calls `recover()` in its own body and stores the fault as the operation's
+error (`driver_walks_guarded`, `guard_is_a_guard`); the entry points without the guard are exactly the Remove* ones, which
+read the rule id only (`unguarded_read_id_only`).  Under Go's defer / recover semantics (trusted, modelled by `guarded`) a
+guarded call never hands a fault to the event loop (`guarded_never_faults`).  What the IE walk inside the guard answers
+is not modelled; that it does not fault PAST the guard is what the damaged-IE stream (`drvmal`) observes.
 -/
 import UpfVerif.Model.Core
+import UpfVerif.Gen.Guards
 import UpfVerif.Lemmas.Core
 import UpfVerif.Props.C04
 import UpfVerif.Props.C05
@@ -64,6 +72,48 @@ theorem unknown_session_mod_intact (st : State) (wf : C04.TableWF st.lnode) (add
     (r : ModReq) (env : Env) (c : Ctx) (y : Seid) (hy : y ≠ r.seid) :
     (handleMod st addr seq r env c).1.lnode.lookup y = st.lnode.lookup y :=
   C05.mod_frame st wf addr seq r env c y hy
+
+/-! ### layer 2 on the gtp5g driver path: the fault guard of the rule entry points (regenerated facts) -/
+
+/-- the driver entry points that walk the content of a grouped rule IE -/
+def walksRuleIE : List String :=
+  ["CreatePDR", "UpdatePDR", "CreateFAR", "UpdateFAR", "CreateQER", "UpdateQER", "CreateURR", "UpdateURR", "CreateBAR", "UpdateBAR"]
+
+/-- the ones that read the rule id and nothing else -/
+def readsIdOnly : List String := ["RemovePDR", "RemoveFAR", "RemoveQER", "RemoveURR", "RemoveBAR"]
+
+/-- in /repo's current source every one of them starts with `defer ieFault(&<named error result>)` -/
+theorem driver_walks_guarded : ∀ n ∈ walksRuleIE, (n, true) ∈ Gen.Guards.driverIE := by decide
+
+/-- `ieFault` is a guard: it recovers in its own body and turns the fault into the operation's error -/
+theorem guard_is_a_guard : Gen.Guards.guardRecovers = true ∧ Gen.Guards.guardSetsError = true := by decide
+
+/-- no other exported entry point handed a rule IE is without the guard, except those that read the id only -/
+theorem unguarded_read_id_only : ∀ p ∈ Gen.Guards.driverIE, p.2 = false → p.1 ∈ readsIdOnly := by decide
+
+/-- outcome of a Go function body: it returns, or it faults (panics) -/
+inductive Outcome (α : Type) | ret (a : α) | fault
+deriving DecidableEq, Repr
+
+/-- `func f(...) (rerr error) { defer guard(&rerr); body }` — Go's defer / recover: when the body faults and the deferred
+    function recovers, `f` returns normally with the error the guard stored; when it does not recover, the fault goes on -/
+def guarded (recovers : Bool) (body : Outcome (Except String α)) : Outcome (Except String α) :=
+  match body with
+  | .ret a => .ret a
+  | .fault => if recovers then .ret (.error "malformed IE") else .fault
+
+/-- with the guard of the current source, whatever the walk over the IE does, the entry point returns: the fault of one
+    rule IE is the error of one rule, not the end of the event loop -/
+theorem guarded_never_faults (body : Outcome (Except String α)) : guarded Gen.Guards.guardRecovers body ≠ .fault := by
+  have h : Gen.Guards.guardRecovers = true := guard_is_a_guard.1
+  rw [h]
+  cases body <;> simp [guarded]
+
+/-- … and a body that does not fault is not disturbed by it -/
+theorem guarded_transparent (r : Bool) (a : Except String α) : guarded r (.ret a) = .ret a := rfl
+
+/-- without a recovering guard the fault goes through (what b4acd18 repaired) -/
+example : guarded false (Outcome.fault : Outcome (Except String Unit)) = .fault := rfl
 
 /-- the extreme SEID values of the quantifier: all answered "not found", none indexes the table -/
 example : let n := [C04.TOp.new 7, .new 8].foldl C04.applyOp {}
